@@ -202,11 +202,13 @@ pub fn first_impossible(cov: &[u8], path: &Path, t: &Transform, w: i32, h: i32) 
     })
 }
 
-/// The same for a stroke: the stroked region lies within `outset` (half the width times the larger
-/// of the miter limit and sqrt 2 - joins, caps and miter tips included) of the path in user
-/// space, hence within outset x (largest singular value of t) of it in device space. Dashing only
-/// removes parts. None: no statement (width not a positive number, coordinates out of range).
-pub fn stroke_certainly_uncovered(path: &Path, width: f32, miter_limit: f32, t: &Transform, w: i32, h: i32) -> Option<Vec<bool>> {
+/// The same for a stroke: the stroked region lies within `outset` of the path in user space -
+/// half the width for the body, butt and round caps, bevel and round joins; times sqrt 2 with
+/// square caps (the corners of the cap); times the miter limit with miter joins (the tip of the
+/// longest miter that is not cut off) - hence within outset x (largest singular value of t) of it
+/// in device space. Dashing only removes parts. None: no statement (width not a positive number,
+/// coordinates out of range).
+pub fn stroke_certainly_uncovered(path: &Path, width: f32, miter_limit: f32, square_caps: bool, miter_joins: bool, t: &Transform, w: i32, h: i32) -> Option<Vec<bool>> {
     t.inverse()?;
     if !(width > 0.) || !width.is_finite() || !miter_limit.is_finite() {
         return None;
@@ -216,7 +218,14 @@ pub fn stroke_certainly_uncovered(path: &Path, width: f32, miter_limit: f32, t: 
     let s1 = a * a + b * b + c * c + d * d;
     let s2 = (((a * a + b * b) - (c * c + d * d)).powi(2) + 4. * (a * c + b * d).powi(2)).sqrt();
     let sigma = ((s1 + s2) / 2.).sqrt();
-    let outset = 0.5 * width as f64 * (miter_limit.max(0.) as f64).max(std::f64::consts::SQRT_2) * sigma;
+    let mut factor = 1.0f64;
+    if square_caps {
+        factor = factor.max(std::f64::consts::SQRT_2);
+    }
+    if miter_joins {
+        factor = factor.max(miter_limit.max(0.) as f64);
+    }
+    let outset = 0.5 * width as f64 * factor * sigma;
     if !outset.is_finite() || outset > RANGE {
         return None;
     }
@@ -231,11 +240,11 @@ pub fn stroke_certainly_uncovered(path: &Path, width: f32, miter_limit: f32, t: 
     Some(out)
 }
 
-pub fn first_impossible_stroke(cov: &[u8], path: &Path, width: f32, miter_limit: f32, t: &Transform, w: i32, h: i32) -> Option<String> {
-    let unc = stroke_certainly_uncovered(path, width, miter_limit, t, w, h)?;
+pub fn first_impossible_stroke(cov: &[u8], path: &Path, width: f32, miter_limit: f32, square_caps: bool, miter_joins: bool, t: &Transform, w: i32, h: i32) -> Option<String> {
+    let unc = stroke_certainly_uncovered(path, width, miter_limit, square_caps, miter_joins, t, w, h)?;
     (0..cov.len()).find(|p| unc[*p] && cov[*p] != 0).map(|p| {
         format!(
-            "pixel ({},{}) has coverage {} although it is farther from the path than the stroke can reach (half the width times max(miter limit, sqrt 2), plus {} px)",
+            "pixel ({},{}) has coverage {} although it is farther from the path than the stroke can reach (half the width; times sqrt 2 with square caps, times the miter limit with miter joins; plus {} px)",
             p as i32 % w,
             p as i32 / w,
             cov[p],
